@@ -184,7 +184,7 @@ def run_impl(text, expect, system=False):
 def check(rep):
     import gbigsmiles
 
-    coq = fw.coq_check("C15", ["SrcBond", "SrcDist", "SrcStoch", "SrcGenerable", "SrcDescr", "SrcToken", "SrcStochParse", "SrcSysParse", "SrcMolParse"])
+    coq = fw.coq_check("C15", ["SrcBond", "SrcDist", "SrcStoch", "SrcGenerable", "SrcDescr", "SrcToken", "SrcStochParse", "SrcSysParse", "SrcMolParse", "SrcSys"])
     quick = rep.tier == "quick"
     rnd = random.Random(rep.seed + 15)
     base = [t for t in gi.DOCUMENTED] + [t for a, t, _ in gi.cases(rnd.randrange(1 << 30), 80 if quick else 3000) if a != "defective_list"]
